@@ -439,3 +439,6 @@ func RecordBulk(unitName string, n, nontrivial int, what string, samples []inter
 		}
 	}
 }
+
+// NewCtx returns a fresh classification context (debugging helpers).
+func NewCtx() *Ctx { return &Ctx{} }
